@@ -191,11 +191,28 @@ let extlen_line kind crit hex =
       (match ext with Some e -> hx e | None -> "unmodelled") cr (if check then 1 else 0)
   end
 
+(* wave 2: signature algorithm identifiers; outer ids as in the harness *)
+let outer_alg_content = function
+  | 0 -> "06082a811ccf55018375" | 1 -> "06082a811ccf550183750500" | 2 -> "06082a8648ce3d040302" | 3 -> "06092a864886f70d01010b0500"
+  | 4 -> "06082a811ccf550183780500" | 5 -> "06032a0304" | 6 -> "06082a8648ce3d0403020500" | _ -> "06082a811ccf55018375020105"
+let oid_class = function 0 | 1 -> 0 | 2 | 6 -> 2 | 3 -> 3 | 4 -> 4 | _ -> -1     (* table entry, -1 = does not parse *)
+let sigalg_line kind inner outer mode =
+  let i = int_of_string inner and o = int_of_string outer in
+  let parses = oid_class o >= 0 in
+  let ver = parses && alg_is_sm2sm3 (bx (outer_alg_content o)) && mode = "good" in
+  let agree = parses && oid_class i = oid_class o in
+  let b x = if x then 1 else 0 in
+  match kind with
+  | "cert" -> Printf.sprintf "parse=%s verify=%d by_ca=%d check=%d" (if parses then "1" else "ERR") (b ver) (b ver) (b agree)
+  | "req" -> Printf.sprintf "parse=%s verify=%d" (if parses then "1" else "ERR") (b ver)
+  | _ -> Printf.sprintf "parse=%s verify=%d check=%d" (if parses then "1" else "ERR") (b ver) (b agree)
+
 let handle ws = match ws with
   | ["keys"] -> String.concat " " (Array.to_list (Array.map hx keys))
   | "cert" :: r -> cert_line r
   | "certck" :: r -> let l = cert_line r in if String.length l >= 3 && String.sub l 0 3 = "ERR" then l else l ^ " check=1"
   | ["extlen"; kind; crit; hex] -> extlen_line kind crit hex
+  | ["sigalg"; kind; inner; outer; mode] -> sigalg_line kind inner outer mode
   | "req" :: r -> req_line r
   | "crl" :: r -> crl_line r
   | ["crlfind"; entries; serial] ->
